@@ -156,16 +156,29 @@ Print Assumptions sender_is_emitter.
    sender = the payer and the coins verbatim (send_payload), BEFORE the callee runs; the callee runs iff the
    bank agreed, and the bank's refusal is the message's failure *)
 Theorem funds_go_through_the_bank :
-  forall inp ins fc sp cp c,
-  let p := PFunded ins fc sp cp c in
+  forall inp ins fc sp cp m h,
+  let p := PFunded ins fc sp cp m h in
   let send := mk_entry (slot_id SlBank) (i_sender inp) sp (i_height inp) in
   let callee := mk_entry callee_slot (i_sender inp) cp (i_height inp) in
-  (f_nonempty fc = false -> entries_of inp p = [callee] /\ answer inp p = ROk None) /\
+  (f_nonempty fc = false -> mod_entries_of inp p = [callee] /\ answer inp p = ROk None) /\
   (f_nonempty fc = true -> records (bank_beh inp) = true ->
-     entries_of inp p = send :: (if is_ok (bank_result (bank_beh inp) fc sp) then [callee] else []) /\
+     mod_entries_of inp p = send :: (if is_ok (bank_result (bank_beh inp) fc sp) then [callee] else []) /\
      answer inp p = (if is_ok (bank_result (bank_beh inp) fc sp) then ROk None else RErr)).
 Proof. exact L4_funds_go_through_the_bank. Qed.
 Print Assumptions funds_go_through_the_bank.
+
+(* the reply table of a sub-message (src/wasm.rs execute_submsg), for all four reply_on modes: the contract's
+   reply entry point is invoked iff (module ok /\ mode in {Success, Always}) \/ (module err /\ mode in {Error,
+   Always}); a module error ends the transaction unless a reply is due for it AND the handler returns Ok (so
+   never under Never / Success); a module success ends it only if a due reply handler fails.  entries_of p =
+   mod_entries_of p ++ [the reply's own record iff replied], so other_modules_untouched pins the invocations. *)
+Theorem reply_table :
+  forall inp p, p_is_msg p = true -> is_top (i_origin inp) = false ->
+  let ok := is_ok (answer inp p) in
+  replied inp p = match p_mode p with RNever => false | RSuccess => ok | RError => negb ok | RAlways => true end /\
+  stops inp p = (if ok then replied inp p && negb (p_hok p) else negb (replied inp p && p_hok p)).
+Proof. exact L4_reply_table. Qed.
+Print Assumptions reply_table.
 
 (* failing_module_aborts: if the module configured for some probe fails and the failure is not caught by a
    reply / by the querying contract, the whole call fails like any other error and keeps nothing: not the
@@ -197,7 +210,7 @@ Print Assumptions module_result_is_callers.
 Theorem module_answer :
   forall inp p, answer inp p =
     match p with
-    | PFunded _ fc sp _ _ => if f_nonempty fc && negb (is_ok (bank_result (bank_beh inp) fc sp)) then RErr else ROk None
+    | PFunded _ fc sp _ _ _ => if f_nonempty fc && negb (is_ok (bank_result (bank_beh inp) fc sp)) then RErr else ROk None
     | _ => match beh inp p with Accepting => ROk None | RecOk => ROk (Some (p_payload p)) | Failing | RecErr | Keeper => RErr end
     end.
 Proof. exact answer_spec. Qed.
@@ -238,30 +251,36 @@ Proof. repeat split; try discriminate; vm_compute; intuition discriminate. Qed.
    message whose module fails uncaught: the gov module (slot 6) and the ibc module (slot 5) are reached with
    the contract as sender, the call fails, nothing is kept *)
 Definition ex_cfg : list behaviour := [RecOk; RecOk; RecOk; RecOk; RecOk; RecErr; RecOk; RecOk].
-Definition ex_abort : input := mk_input ex_cfg (SubEmpty EMigrate) true 77 1005 [PMsg MGov 61 true; PMsg MIbc 62 false].
+Definition ex_abort : input := mk_input ex_cfg (SubEmpty EMigrate) true 77 1005 [PMsg MGov 61 RAlways true; PMsg MIbc 62 RSuccess true].
 Example failing_module_aborts_applies :
   lift_abort spec_routes ex_abort = false /\
   (exists p, In p (i_probes ex_abort) /\ stops ex_abort p = true) /\
-  spec_case ex_abort = mk_obs [mk_entry 6 77 61 1005; mk_entry 5 77 62 1005] RErr [] false [] /\
+  (* the vote succeeds under Always: its reply is invoked (slot 9, payload 2*61+1); the IBC module fails under
+     reply_on = Success: NO reply, the call fails *)
+  spec_case ex_abort = mk_obs [mk_entry 6 77 61 1005; mk_entry 9 77 123 1005; mk_entry 5 77 62 1005] RErr [] false [] /\
   c17 ex_abort (model_case ex_abort) = Agree /\
   (* had the vote been handed to the ibc module instead, the oracle would object at log entry 0 *)
-  c17 ex_abort (mk_obs [mk_entry 5 77 61 1005; mk_entry 5 77 62 1005] RErr [] false []) = PropFail 0 /\
+  c17 ex_abort (mk_obs [mk_entry 5 77 61 1005; mk_entry 9 77 123 1005; mk_entry 5 77 62 1005] RErr [] false []) = PropFail 0 /\
   (* ... or with another sender (e.g. the admin who sent the Migrate instead of the migrated contract) *)
-  c17 ex_abort (mk_obs [mk_entry 6 78 61 1005; mk_entry 5 77 62 1005] RErr [] false []) = PropFail 0 /\
-  (* ... and a call that kept the earlier write although the ibc module failed is rejected *)
-  c17 ex_abort (mk_obs [mk_entry 6 77 61 1005; mk_entry 5 77 62 1005] RErr [] true []) = PropFail 300.
+  c17 ex_abort (mk_obs [mk_entry 6 78 61 1005; mk_entry 9 77 123 1005; mk_entry 5 77 62 1005] RErr [] false []) = PropFail 0 /\
+  (* ... a reply invoked for the module's error under reply_on = Success is rejected, whatever happens next *)
+  c17 ex_abort (mk_obs [mk_entry 6 77 61 1005; mk_entry 9 77 123 1005; mk_entry 5 77 62 1005; mk_entry 9 77 124 1005] RErr [] false []) = PropFail 3 /\
+  (* ... as is a transaction that survives the uncaught failure *)
+  c17 ex_abort (mk_obs [mk_entry 6 77 61 1005; mk_entry 9 77 123 1005; mk_entry 5 77 62 1005] (ROk None) [(0, ROk (Some 61))]%N true [(6, 61)]%N) = PropFail 100 /\
+  (* ... and a call that kept the earlier write although the ibc module failed *)
+  c17 ex_abort (mk_obs [mk_entry 6 77 61 1005; mk_entry 9 77 123 1005; mk_entry 5 77 62 1005] RErr [] true []) = PropFail 300.
 Proof.
-  split; [vm_compute; reflexivity|]. split; [exists (PMsg MIbc 62 false); vm_compute; auto|].
+  split; [vm_compute; reflexivity|]. split; [exists (PMsg MIbc 62 RSuccess true); vm_compute; auto|].
   vm_compute. repeat split; reflexivity.
 Qed.
 
-(* the same program with the failure caught by a reply: the call succeeds, the contract is shown Ok(data) for
+(* the same program with the failure caught by a reply (reply_on = Error, handler returns Ok): the call succeeds, the contract is shown Ok(data) for
    the vote and the error for the IBC message, the earlier write and the gov module's marker are kept *)
-Definition ex_ok : input := mk_input ex_cfg (SubCustom EReply) true 77 1005 [PQuery QBank 60 false; PMsg MGov 61 true; PMsg MIbc 62 true].
+Definition ex_ok : input := mk_input ex_cfg (SubCustom EReply) true 77 1005 [PQuery QBank 60 false; PMsg MGov 61 RAlways true; PMsg MIbc 62 RError true].
 Example module_result_is_callers_applies :
   lift_abort spec_routes ex_ok = false /\
   (forall p, In p (i_probes ex_ok) -> stops ex_ok p = false) /\
-  spec_case ex_ok = mk_obs [mk_entry 1 0 60 1005; mk_entry 6 77 61 1005; mk_entry 5 77 62 1005] (ROk None)
+  spec_case ex_ok = mk_obs [mk_entry 1 0 60 1005; mk_entry 6 77 61 1005; mk_entry 9 77 123 1005; mk_entry 5 77 62 1005; mk_entry 9 77 124 1005] (ROk None)
                            [(0, ROk (Some 60)); (1, ROk (Some 61)); (2, RErr)]%N true [(6, 61)]%N /\
   has_distribution_query ex_ok = false /\ c17 ex_ok (model_case ex_ok) = Agree.
 Proof.
@@ -286,13 +305,13 @@ Proof. vm_compute. repeat split; reflexivity. Qed.
    refuses: the bank's Send record, no callee record, the call fails.  An observation in which the bank was
    never asked and the callee ran (the guard `any non-zero coin` instead of `non-empty`) is rejected. *)
 Definition ex_funds : input :=
-  mk_input [RecOk; RecErr; RecOk; RecOk; RecOk; RecOk; RecOk; RecOk] (SubCustom EExecute) false 77 1005 [PFunded false FZero1 71 72 false].
+  mk_input [RecOk; RecErr; RecOk; RecOk; RecOk; RecOk; RecOk; RecOk] (SubCustom EExecute) false 77 1005 [PFunded false FZero1 71 72 RNever true].
 Example funds_go_through_the_bank_applies :
   f_nonempty FZero1 = true /\ records (bank_beh ex_funds) = true /\
   spec_case ex_funds = mk_obs [mk_entry 1 77 71 1005] RErr [] false [] /\
   c17 ex_funds (model_case ex_funds) = Agree /\
   c17 ex_funds (mk_obs [mk_entry 8 77 72 1005] (ROk None) [] false [(8, 72)]%N) = PropFail 0 /\
   (* with the crate's own BankKeeper: [0 x; 3 y] is accepted, [0 x; 0 y] refused *)
-  answer (mk_input [RecOk; Keeper] Top false 77 1005 []) (PFunded true FZeroPos 71 72 false) = ROk None /\
-  answer (mk_input [RecOk; Keeper] Top false 77 1005 []) (PFunded true FZero2 71 72 false) = RErr.
+  answer (mk_input [RecOk; Keeper] Top false 77 1005 []) (PFunded true FZeroPos 71 72 RNever true) = ROk None /\
+  answer (mk_input [RecOk; Keeper] Top false 77 1005 []) (PFunded true FZero2 71 72 RNever true) = RErr.
 Proof. vm_compute. repeat split; reflexivity. Qed.
